@@ -73,9 +73,14 @@ def run_check(ctx, mod, ev_path):
         for h in hits:
             ctx.broke("audit", "forbidden token", h)
         thm_total = 0
+        gen_failed = any(not st.get("ok") for st in gen_status.values())
         for module, thms in spec.get("theorems", {}).items():
             thm_total += len(thms)
             failed_mod = any(f["module"] == module for f in failures) if not ok else False
+            if gen_failed:
+                # the generated definitions could not be regenerated from the current source: the compiled proofs are
+                # about the previous source and prove nothing about this tree
+                failed_mod = True
             if failed_mod:
                 for t in thms:
                     ctx.theorems[t] = None
